@@ -35,7 +35,11 @@ pub fn msg_header_bytes(ty: u8, tag: u16, size_halfwords: u16) -> Vec<u8> {
 pub fn build_frame(l: &Layouts, rng: &mut Rng, s: &Sym, tag: u16) -> Vec<u8> {
     match s {
         Sym::F(t) => {
-            let mut f = msg_header_bytes(*t, tag, 1208);
+            // a fixed-length type occupies one 2,432-byte frame whatever its header's size fields say: the halfword count,
+            // segment count and segment number vary, including the variable-length marker 0xFFFF with a 32-bit size
+            let size = match rng.below(6) { 0 => 0xFFFF, 1 => 0, 2 => rng.next() as u16, _ => 1208 };
+            let mut f = msg_header_bytes(*t, tag, size);
+            if size != 1208 { let sc = rng.next() as u16; let sn = rng.next() as u16; f[24..26].copy_from_slice(&(if rng.chance(1, 2) { sc % 4 } else { sc }).to_be_bytes()); f[26..28].copy_from_slice(&sn.to_be_bytes()); }
             let mut body = rng.bytes(2404);
             if *t == 5 { body[6] = 0; body[7] = (tag % 7) as u8; } // VCP: a cut count that fits the frame
             f.extend_from_slice(&body);
@@ -67,7 +71,7 @@ pub fn project(m: &Message) -> Value {
 pub struct Outcome { pub out: &'static str, pub n: usize, pub tags: Vec<u64>, pub msgs: Vec<Value>, pub detail: String }
 
 pub fn decode_stream(bytes: &[u8]) -> Outcome {
-    let r = guarded(|| decode_messages(&mut Cursor::new(bytes)));
+    let r = guarded(|| if dribbled(bytes) { decode_messages(&mut Dribble::new(bytes)) } else { decode_messages(&mut Cursor::new(bytes)) });
     match r {
         Err(p) => Outcome { out: "panic", n: 0, tags: vec![], msgs: vec![], detail: p },
         Ok(Err(e)) => Outcome { out: "err", n: 0, tags: vec![], msgs: vec![], detail: format!("{e:?}") },
@@ -123,6 +127,8 @@ pub fn run(args: &Args) {
             let mut tr = TraceOut::create(args.out.as_deref().unwrap_or(""));
             let mut res = Results::create(args.res.as_deref().unwrap_or(""));
             let r1 = Sym::R(vec![("VOL".into(), 0, 0), ("ELV".into(), 0, 0), ("RAD".into(), 0, 0), ("REF".into(), 460, 8), ("VEL".into(), 300, 8), ("PHI".into(), 200, 16)]);
+            // full-resolution radial: 1,840 gates at 8 bit, 1,192 and 1,840 gates at 16 bit
+            let r2 = Sym::R(vec![("VOL".into(), 0, 0), ("ELV".into(), 0, 0), ("RAD".into(), 0, 0), ("REF".into(), 1840, 8), ("VEL".into(), 1192, 8), ("ZDR".into(), 1840, 16), ("PHI".into(), 1192, 16), ("RHO".into(), 921, 16)]);
             let mut streams: Vec<(Vec<Sym>, usize)> = Vec::new();
             // all 256 type codes: alone, followed by a type-31 message, followed by a status frame (errors show on the NEXT message)
             for t in 0..=255u8 {
@@ -130,6 +136,7 @@ pub fn run(args: &Args) {
                 streams.push((vec![Sym::F(t)], usize::MAX));
                 streams.push((vec![Sym::F(t), r1.clone()], usize::MAX));
                 streams.push((vec![Sym::F(t), Sym::F(2), r1.clone()], usize::MAX));
+                if t % 16 == 13 { streams.push((vec![Sym::F(t), r2.clone(), Sym::F(t), r1.clone()], usize::MAX)); }
             }
             // realistic mixes: metadata run, then radials; random interleavings; up to 300 messages
             let n_mix = if args.thorough { 60 } else { 10 };
@@ -142,7 +149,7 @@ pub fn run(args: &Args) {
                     else {
                         let all = ["VOL", "ELV", "RAD", "REF", "VEL", "SW", "ZDR", "PHI", "RHO", "CFP"];
                         let mut keep: Vec<(String, usize, u8)> = Vec::new();
-                        for p in all { if rng.chance(4, 5) { keep.push((p.to_string(), *rng.pick(&[0usize, 1, 120, 460]), if p == "PHI" { 16 } else { 8 })); } }
+                        for p in all { if rng.chance(4, 5) { keep.push((p.to_string(), *rng.pick(&[0usize, 1, 120, 460, 921, 1840]), if p == "PHI" || rng.chance(1, 6) { 16 } else { 8 })); } }
                         s.push(Sym::R(keep));
                     }
                 }
